@@ -1,0 +1,31 @@
+//go:build verif
+
+package store
+
+import (
+	"github.com/canopy-network/canopy/lib"
+	"github.com/cockroachdb/pebble/v2"
+	"github.com/cockroachdb/pebble/v2/vfs"
+)
+
+// Verification hook (build tag `verif` only; add-only, no production code path uses it).
+
+// VerifOpenStoreOnFS opens a Store exactly as NewStoreInMemory does, but on a caller-supplied pebble
+// file system, so that a harness can Close() a store and open it again on the same in-memory files:
+// the equivalent of a process restart inside one test binary.
+func VerifOpenStoreOnFS(fs vfs.FS, config lib.Config, log lib.LoggerI) (lib.StoreI, lib.ErrorI) {
+	db, err := pebble.Open("", &pebble.Options{
+		FS:                    fs,
+		L0CompactionThreshold: 20,
+		L0StopWritesThreshold: 40,
+		FormatMajorVersion:    pebble.FormatColumnarBlocks,
+		Logger:                log,
+		BlockPropertyCollectors: []func() pebble.BlockPropertyCollector{
+			func() pebble.BlockPropertyCollector { return newVersionedPropertyCollector() },
+		},
+	})
+	if err != nil {
+		return nil, ErrOpenDB(err)
+	}
+	return NewStoreWithDB(config, db, nil, log)
+}
